@@ -96,3 +96,35 @@ logical_to_mesh = function(
   bindings=LB, props=('C19',))
 logical_to_mesh.locals = {'result': Result, 'dups': Names}
 logical_to_mesh.assume_axioms = USED_AX
+
+# ---- logical_to_mesh_axes (public wrapper): None stays None; otherwise one PartitionSpec entry per dimension, an unassigned
+# ---- dimension becoming None (= not sharded) and every assigned one keeping exactly its mesh axes ------------------------------
+PSpecL = Union('PartitionSpecOrNone', [Ctor('PSNone', [], pytypes=('NoneType',), is_const=None), Ctor('PSpec', [('entries', Result)], pytypes=('PartitionSpec',))])
+inner_l2m = UFn('inner_logical_to_mesh_axes', [DimNames, Rules], ResOpt, '_logical_to_mesh_axes(array_dim_names, rules) (contract above)')
+RulesOpt = Union('RulesOrNone', [Ctor('RNone', [], pytypes=('NoneType',), is_const=None), Ctor('RSome', [('rules', Rules)], pytypes=('tuple', 'list', 'Sequence'), payload='rules')])
+inner_l2m_opt = UFn('inner_logical_to_mesh_axes_opt', [DimNames, RulesOpt], ResOpt, '_logical_to_mesh_axes(array_dim_names, rules) with rules possibly None')
+UNASSIGNED = GlobalVar('_unassigned_axis', R)
+
+
+def _pspec_of(ex, a, kw):
+  star = [x[1] for x in a if isinstance(x, tuple) and not isinstance(x, PyTuple) and len(x) == 2 and x[0] == '*']
+  if len(star) != 1 or len(a) != 1:
+    raise OutsideSubset('PartitionSpec(*entries) expected')
+  es = ex.coerce(star[0], Result)
+  return SV(PSpecL, PSpecL.mk('PSpec', es.t))
+
+
+INNER = 'inner_logical_to_mesh_axes_opt(array_dim_names, rules)'
+l2m_public = function(
+  F + '::logical_to_mesh_axes', params=[('array_dim_names', DimNames), ('rules', RulesOpt)], free=[('_unassigned_axis', R)], returns=PSpecL,
+  requires=["is_(_unassigned_axis, 'RUnassigned')"],
+  ensures=[
+    f"implies(is_({INNER}, 'ResNone'), result is None)",
+    f"implies(is_({INNER}, 'ResList'), is_(result, 'PSpec') and len(result.entries) == len({INNER}.items))",
+    f"implies(is_({INNER}, 'ResList'), forall(Int, lambda i: implies(0 <= i and i < len({INNER}.items), "
+    f"(is_(result.entries[i], 'RVal') and result.entries[i].v is None) if is_({INNER}.items[i], 'RUnassigned') else result.entries[i] == {INNER}.items[i])))",
+  ],
+  bindings={'_logical_to_mesh_axes': inner_l2m_opt, 'jax.sharding.PartitionSpec': Handler('jax.sharding.PartitionSpec', _pspec_of, 'PartitionSpec(*entries): an injective constructor of the entries')},
+  props=('C19',))
+l2m_public.comp_elem_hint = R
+l2m_public.defaults = {'rules': None}
